@@ -27,7 +27,7 @@ Definition nto_eqb := list_eqb (fun (a b : string * item) => String.eqb (fst a) 
 
 Record pcase := {
   p_kws : list string;                       (* sorted(writer.pddl_keywords) when the requests were made *)
-  p_hier : bool;
+  p_hier : bool;                             (* has_hierarchical_typing() or len(user_types) > 1 *)
   p_pnames : list string;
   p_reqs : list item;                        (* the _get_mangled_name calls, in order *)
   p_names : list string;                     (* what each call returned *)
